@@ -52,7 +52,7 @@ class JumpWriteHandler(AbstractWriteHandler):
         if not op.synthetic:
             # An inserted break / continue (written as jump, if it turned out to lie outside of the loop) is not an
             # operation of its own, it must not replace the entry of the operation it was inserted after.
-            self.decompiler.source_map_add_opcode(op.offset)
+            self.decompiler.source_map_add_jump_opcode(op.offset)
         # Nothing to do, this is dealt with, when processing the label after this
         # either we print a jump there, or we just proceed.
         exits = self.start_vertex.out_edges()
